@@ -643,6 +643,7 @@ pub fn default_dest() -> DestPlan {
         pre_len: 0,
         origin: 0,
         fx: Vec::new(),
+        short_entry: 0,
     }
 }
 
